@@ -30,3 +30,8 @@ def all_chars(s, pred):
     """every character of the string s satisfies pred (a pure predicate on one-character strings).
     In proofs: a measure over string concatenation (pyvc.charclass)."""
     return all(pred(c) for c in s)
+
+
+def items_of(it):
+    """the (remaining) items of an iterator or sequence, as a list"""
+    return list(it)
